@@ -133,6 +133,17 @@ theorem schedule_independent (keep b : List Nat) (T H : Nat) (hT : 1 ≤ T) (hb 
     unfold proj; exact hperm.filterMap _
   exact (applyWrites_perm hp.symm hnd _).symm
 
+/-- **blocks_partition.**  The threads' row ranges, concatenated in thread order, are exactly `0, 1, …, H − 1`:
+every row is visited by exactly one thread, exactly once — in the count pass (where `keep[i]` is written and
+`Nout[tid]` is private to thread `tid`) and in the fill pass alike. -/
+theorem blocks_partition (b : List Nat) (T H : Nat) (hb : BlockSeq b T H) :
+    ∃ b', b = 0 :: b' ∧ blockRows 0 b' = List.range H ∧ (blockRows 0 b').Nodup := by
+  obtain ⟨b', rfl, _, hlast, hp, _⟩ := hb.decomp
+  have h : blockRows 0 b' = List.range H := by
+    rw [blockRows_eq 0 b' hp, hlast]
+    simp [pyRange, List.range_eq_range']
+  exact ⟨b', rfl, h, by rw [h]; exact List.nodup_range⟩
+
 /-! ### non-vacuity -/
 
 -- a table of 7 rows, 3 threads with uneven blocks, all four keep codes
@@ -145,52 +156,13 @@ example : (twoPass [1, 0, 2, 1, 3, 1, 2] [0, 2, 5, 7] 3).toOption.map (fun o => 
 example : rowsOf [1, 0, 2, 1, 3, 1, 2] 1 = [0, 3, 5] := by decide
 example : (twoPass [1, 0, 2, 1, 3, 1, 2] [0, 2, 5, 7] 3).toOption.map (fun o => o.fills.map (·.1)) =
     (twoPass [1, 0, 2, 1, 3, 1, 2] [0, 2, 5, 7] 3).toOption.map (fun o => o.gstart.tail) := by decide
+example : blockRows 0 [2, 5, 7] = List.range 7 := by decide
 -- the hypotheses matter: boundaries that are not a block sequence of the table fault …
 example : (match twoPass [1, 2] [0, 1, 3] 2 with | .error f => some f | .ok _ => none) = some .oob := by decide
 -- … and writes that collide are order dependent (the model can exhibit a lost write)
 example : applyWrites [0] [(0, 1), (0, 2)] ≠ applyWrites [0] [(0, 2), (0, 1)] := by decide
 
 /-! ### fast_concatenate -/
-
-theorem lastB_map_add (s n : Nat) (h' : List Nat) : lastB (s + n) (h'.map (· + n)) = lastB s h' + n := by
-  induction h' generalizing s with
-  | nil => rfl
-  | cons x r ih => simp only [List.map_cons, lastB_cons]; exact ih x
-
-/-- the cells and values of the concatenation, in cell order -/
-theorem concat_cells {α} (a1 a2 : List α) :
-    (pyRange 0 a1.length).map (fun (i : Nat) => (i, a1[((i : Int) + 0).toNat]?)) ++
-      (pyRange a1.length (a1.length + a2.length)).map
-        (fun (i : Nat) => (i, a2[((i : Int) + -(a1.length : Int)).toNat]?)) =
-    (List.range (a1.length + a2.length)).map (fun i => (i, (a1 ++ a2)[i]?)) := by
-  have hr : List.range (a1.length + a2.length) =
-      pyRange 0 a1.length ++ pyRange a1.length (a1.length + a2.length) := by
-    rw [← pyRange_split 0 a1.length (a1.length + a2.length) (by omega) (by omega)]
-    simp [pyRange, List.range_eq_range']
-  rw [hr, List.map_append]
-  congr 1
-  · apply List.map_congr_left
-    intro i hi
-    have := pyRange_mem hi
-    rw [List.getElem?_append_left this.2]
-    simp
-  · apply List.map_congr_left
-    intro i hi
-    have := pyRange_mem hi
-    rw [List.getElem?_append_right this.1]
-    congr 2
-    omega
-
-theorem result_of_cells {α} (a1 a2 : List α) (ws : List (Nat × α))
-    (h : optW ws = (List.range (a1.length + a2.length)).map (fun i => (i, (a1 ++ a2)[i]?))) :
-    ws.map (·.1) = List.range (a1.length + a2.length) ∧
-    (FC.fresh (a1.length + a2.length) ws).result a1 a2 = (a1 ++ a2).map some := by
-  constructor
-  · have : (optW ws).map (·.1) = ws.map (·.1) := by simp [optW]
-    rw [← this, h, List.map_map]
-    simp [Function.comp_def]
-  · show applyWrites (List.replicate (a1.length + a2.length) none) (optW ws) = _
-    rw [h, applyWrites_range _ _ _ (by simp), ← List.length_append, range_getElem?_eq_map_some]
 
 /-- **fastConcat_spec.**  Both inputs non-empty and `T ≥ 2` threads: the split gives each input at least one
 thread (`1 ≤ T1 ≤ T − 1`, `T2 = T − T1 ≥ 1`), no access is out of range, and for any block sequences
